@@ -1,5 +1,5 @@
 \* C12, HISTORIES: two requests one after the other on the same handler, the code as it is
-\* (SharedBuf = FALSE; multipart as it is, so NoCrash is not among the invariants here - see MC_Stream_mmfail.cfg):
+\* (SharedBuf = FALSE; multipart since a4760cc):
 \* every per-stream invariant holds in EVERY request of the history, whatever the earlier request was
 \* (any kind, any payload count, a payload that cannot be encoded at any position, client gone at any instant)
 \* + NoGarbage: a later request is served exactly as by a fresh handler.
@@ -24,6 +24,6 @@ CONSTANTS
   FailSet = {0, 1, 2, 3}
   MaxReq = 2
   SharedBuf = FALSE
-  MmEncodeInAdd = FALSE
-INVARIANTS TypeOK NoRace NoUseAfterFinish NoSplice PreFirst InOrder CompleteLast SseComplete PingsOnlyIfConfigured MmFramed MmOrder MmNoEmpty MmComplete SseFailed MmFailed NoGarbage
+  MmEncodeInAdd = TRUE
+INVARIANTS TypeOK NoRace NoUseAfterFinish NoSplice PreFirst InOrder CompleteLast SseComplete PingsOnlyIfConfigured MmFramed MmOrder MmNoEmpty MmComplete SseFailed MmFailed NoGarbage NoCrash MmTickerStoppedAtReturn
 CHECK_DEADLOCK FALSE
